@@ -45,7 +45,10 @@ def runC17 (op : String) (j : Json) : R Json := do
         let k ← getInts j "impl_kept"
         pure (Json.bool (keptOKAny x.bounds x.nKept k))
       else pure Json.null
-    pure (Json.mkObj [("model", jNats m), ("random", Json.bool random),
+    -- closed form of the selection when no positive count is given (`selection_noCount_closed_form`): one filter
+    let noCount := match x.count with | none => true | some n => decide (n ≤ 0)
+    let closed := if noCount then jNats (allEligible x) else Json.null
+    pure (Json.mkObj [("model", jNats m), ("random", Json.bool random), ("closed", closed),
                       ("model_spec", Json.bool (SpecOK x m)),
                       ("kept", jInts (chunksKept x.bounds x.nKept)),
                       ("impl_spec", implSpec), ("impl_kept_ok", implKept), ("map_invariant", mapInv)])
